@@ -241,6 +241,10 @@ def explore_shard(acc, shard):
         _, init_name, first_op, depth = shard
         model, mk = initial_states()[init_name]
         H.bfs(acc, space(), "B edit histories", init_name, copy.deepcopy(model), mk, OPS, depth, first_op, prop="C02")
+    elif kind == "W":
+        _, init_name = shard
+        model, mk = initial_states()[init_name]
+        H.long_walk(acc, space(), "W long walk from " + init_name, init_name, copy.deepcopy(model), mk, OPS, prop="C02")
 
 
 def probe(p):
@@ -275,6 +279,9 @@ def explore(run):
         shards.append(("B", name, None, 0))
         for i in range(len(OPS) + 1):  # + the 'serialize' operation
             shards.append(("B", name, i, d))
+    for name in initial_states():
+        if "shortened" not in name:
+            shards.append(("W", name))  # one long history per small initial state
     k = run.seed % len(shards)
     shards = shards[k:] + shards[:k]
     run.merge(core.pmap(explore_shard, shards, run.seed))
@@ -292,11 +299,13 @@ def explore(run):
         f"K: every ordering of <= {small_k} chart keys from {CHART_KEYS} x NOTES/NOTES2 at every position x notes values {NOTES_VALUES!r} x values per key from {VAL_KINDS!r} (<= {full_k} keys) or {VAL_KINDS_SMALL!r} (more keys); "
         f"B: breadth-first edit histories of depth <= {depth} (corpus states {depth - 1}, bare constructor 1) over {len(OPS)} operations + serialize from {len(initial_states())} initial states, state matching on content, order and string identity. "
         "Non-trivial = metacharacter value / any chart-alphabet case / state with a chart or None."
+        + " W: from every small initial state one uninterrupted history on one live object in which every ordered pair of operations (incl. serialize) occurs consecutively (order-2 de Bruijn sequence, about 2000 steps), compared with the model after every step, round trip every 16 steps."
     )
     run.assumptions = [
         "msdparser is the trusted tokenizer/escaper; escaping gaps are excluded operationally and counted",
         "a chart is in the domain when exactly one of NOTES/NOTES2 is present; other states are explored but not judged",
     ]
+    core.require(acc.outcomes["long walk on one live object"] > 0, "no long walk")
     core.require(acc.c["roundtrips_checked"] > 1000, "too few round trips")
     core.require(acc.outcomes["value that is the same object as the note data"] > 0, "no aliasing case")
     core.require(acc.outcomes["note data not last"] > 0, "notes always last")
